@@ -78,7 +78,7 @@ Pred(m) ==
       accS == IF env = {} \/ ~sp.hasgrp THEN accC ELSE AccMaps(Ctx(m, [Clean EXCEPT !.groupEnvSat = TRUE]), sp.ast, m.argv)
       accL == IF ~sp.hasend THEN accC ELSE AccMaps(Ctx(m, [Clean EXCEPT !.endLate = TRUE]), sp.ast, m.argv)
       accG == IF ~sp.hasgrp THEN accC ELSE AccMaps(Ctx(m, [Clean EXCEPT !.greedy = TRUE, !.groupEnvSat = TRUE]), sp.ast, m.argv)
-  IN [acc |-> accC, uncl |-> (ShapeUnclaimed(m.argv) \/ accS # accC \/ accL # accC), accG |-> accG]
+  IN [acc |-> accC, uncl |-> (ShapeUnclaimed(ProgOfSpec(m.si + 1), m.argv) \/ accS # accC \/ accL # accC), accG |-> accG]
 
 OptPart(m) == [v \in {x \in DOMAIN m : x[1] = "O"} |-> m[v]]
 
